@@ -58,6 +58,35 @@ def _eval_poly(poly, env):
     return total
 
 
+def path_model(p, need, roles, want, domain=(0, 1, 2, 3)):
+    """a witness assignment of the integer atoms under which every condition of path p holds, pos <= limit, need >= 0 and
+    want(need, remaining) holds; None if there is none in the finite model, 'unknown' if a condition is not a comparison of
+    terms over the parameters and the two fields"""
+    import itertools
+    atoms = set(need.atoms()) if hasattr(need, 'atoms') else set()
+    for c, _ in p.conds:
+        if not isinstance(c, Cmp):
+            return 'unknown'
+        atoms |= set(c.p.atoms())
+    fpos, flim = 'f:' + roles.pos, 'f:' + roles.limit
+    atoms |= {fpos, flim}
+    atoms = sorted(atoms)
+    if len(atoms) > 6 or any(not (a.startswith('p:') or a in (fpos, flim)) for a in atoms):
+        return 'unknown'
+    for vals in itertools.product(domain, repeat=len(atoms)):
+        asg = dict(zip(atoms, vals))
+        if asg[fpos] > asg[flim]:
+            continue
+        env = asg.get
+        n = _eval_poly(need, env)
+        if n is None or n < 0 or not want(n, asg[flim] - asg[fpos]):
+            continue
+        if all(_eval_cond(c, env) == sense for c, sense in p.conds):
+            asg['need'] = n
+            return asg
+    return None
+
+
 def spurious_refusal(p, need, roles, domain=(0, 1, 2, 3)):
     """a path that refuses (returns an error without moving anything) although the request fits: returns a witness
     assignment {atom: value} with every path condition true, pos <= limit and 0 <= need <= limit - pos, or None.
@@ -146,6 +175,7 @@ def check_buffer_primitive(chk, db, fn, roles, kind, limit_err, rules, label):
     pos = Poly.atom('f:' + roles.pos)
     g_ok, e_ok, c_ok = True, True, True
     g_why, e_why, c_why = [], [], []
+    np_why, np_seen = [], []
     refusals = 0
     bufref = 'f:%s[' % roles.buffer
     for p in paths:
@@ -214,12 +244,25 @@ def check_buffer_primitive(chk, db, fn, roles, kind, limit_err, rules, label):
                     c_ok = False
                     c_why.append('store to %s' % s_.target)
         elif (kind == 'writer' or name != 'Skip') and not p.loops_skipped:
-            c_ok = False
-            c_why.append('no data moved on path [%s]' % p.describe()[:100])
+            # a branch taken only for an empty request legitimately moves nothing
+            if path_model(p, need, roles, lambda n, rem: n > 0) is not None:
+                c_ok = False
+                c_why.append('no data moved on path [%s]' % p.describe()[:100])
+        # NP: a block operation on the caller's range runs only for a non-empty request: an empty range may be denoted by null
+        # pointers (data() of an empty vector), and memcpy / memmove require valid pointers even for a length of zero
+        if rules.get('NP') and mems and any(repr(x) in ('p:begin', '&p:byte') or repr(x).startswith('p:') for x in mems[0].args[:2]):
+            w = path_model(p, need, roles, lambda n, rem: n == 0)
+            np_seen.append(1)
+            if w is not None and not (need.is_const() and need.const_value() > 0):
+                np_why.append('%s on the caller\'s range is reached with an empty request (%s): a null range is undefined behaviour' % (
+                    mems[0].name, 'condition not interpretable' if w == 'unknown' else ', '.join('%s=%s' % kv for kv in sorted(w.items()))))
     if rules.get('G'):
         chk.decide(g_ok, rules['G'], where, '%s: %s' % (label, '; '.join(sorted(set(g_why))) if g_why else 'every transfer guarded by need=%r <= remaining' % need), function=label)
         if g_ok:
             chk.decide(e_ok and refusals >= 1, rules['E'], where, '%s: %s' % (label, '; '.join(sorted(set(e_why))) if e_why else 'refusal returns ' + limit_err), function=label)
+    if rules.get('NP') and np_seen:
+        chk.decide(not np_why, rules['NP'], where + ' null', '%s: %s' % (label, '; '.join(sorted(set(np_why))) if np_why else
+                   'the block copy on the caller\'s range runs only for a non-empty request'), function=label)
     if rules.get('C'):
         chk.decide(c_ok, rules['C'], where, '%s: %s' % (label, '; '.join(sorted(set(c_why))) if c_why else 'moves exactly need=%r bytes at buffer[pos], pos += need' % need), function=label)
 
@@ -242,7 +285,7 @@ def check_buffer_class(chk, db, rec_q, rule_ids, guard_required=True):
     prim_names = {'Read', 'Skip'} if kind == 'reader' else {'Write', 'Skip'}
     for m in one_per_pattern(methods, prim_names):
         label = '%s::%s(%s)' % (rec_q.replace('nop::', ''), m['n'], ', '.join(p['t'] for p in m['params']))
-        rules = {'G': rule_ids.get('G') if guard_required else None, 'E': rule_ids.get('E'), 'C': rule_ids.get('C')}
+        rules = {'G': rule_ids.get('G') if guard_required else None, 'E': rule_ids.get('E'), 'C': rule_ids.get('C'), 'NP': rule_ids.get('NP')}
         check_buffer_primitive(chk, db, m, roles, kind, limit_err, rules, label)
     return roles
 
